@@ -20,20 +20,30 @@ JoinComps(cs) == LET RECURSIVE J(_)
                              ELSE (IF i > 1 THEN T(F.sep, "t") ELSE <<>>) \o cs[i] \o J(i + 1)
                  IN J(1)
 SetSeq(S) == SetToSeq(S)
+\* TermToks accepts canonical values AND surface trees (Sugar.tla): set-likes / images given as an
+\* ordered component list `c`, statements with any of the 13 copulas and explicit operands a, b,
+\* interval / placeholder atoms with raw text after the prefix.
+Has(v, f) == f \in DOMAIN v
 TermToks(v) ==
   CASE v.k = "Placeholder" -> T(F.prefix["Placeholder"], "n")
+    [] v.k = "PlaceholderRaw" -> T(F.prefix["Placeholder"] \o Chars(v.raw), "n")
+    [] v.k = "IntervalRaw" -> T(F.prefix["Interval"] \o Chars(v.raw), "n")
     [] v.k \in NamedAtomKinds -> T(F.prefix[v.k] \o Chars(v.n), "n")
-    [] v.k = "SetExtension" -> T(F.seL, "n") \o JoinComps(LET q == SetSeq(v.s) IN [i \in 1..Len(q) |-> TermToks(q[i])]) \o T(F.seR, "n")
-    [] v.k = "SetIntension" -> T(F.siL, "n") \o JoinComps(LET q == SetSeq(v.s) IN [i \in 1..Len(q) |-> TermToks(q[i])]) \o T(F.siR, "n")
-    [] v.k \in StatementKinds ->
-         LET a == IF v.k \in SymStmtKinds THEN SetSeq(v.p)[1] ELSE v.a
-             b == IF v.k \in SymStmtKinds THEN (LET q == SetSeq(v.p) IN q[IF Len(q) = 1 THEN 1 ELSE 2]) ELSE v.b
+    [] v.k \in {"SetExtension", "SetIntension"} ->
+         LET q == IF Has(v, "c") THEN v.c ELSE SetSeq(v.s)
+             l == IF v.k = "SetExtension" THEN F.seL ELSE F.siL
+             r == IF v.k = "SetExtension" THEN F.seR ELSE F.siR
+         IN T(l, "n") \o JoinComps([i \in 1..Len(q) |-> TermToks(q[i])]) \o T(r, "n")
+    [] v.k \in CopKinds ->
+         LET q == IF Has(v, "p") THEN SetSeq(v.p) ELSE <<>>
+             a == IF Has(v, "p") THEN q[1] ELSE v.a
+             b == IF Has(v, "p") THEN q[IF Len(q) = 1 THEN 1 ELSE 2] ELSE v.b
              ta == TermToks(a)
          IN T(F.stL, "n") \o SubSeq(ta, 1, Len(ta) - 1) \o <<[ta[Len(ta)] EXCEPT !.sp = "t"]>> \o T(F.cop[v.k], "t") \o TermToks(b) \o T(F.stR, "n")
     [] OTHER ->   \* bracketed compounds: ( connecter , components )
-         LET comps == CASE v.k \in SetKinds -> (LET q == SetSeq(v.s) IN [i \in 1..Len(q) |-> TermToks(q[i])])
+         LET comps == CASE v.k \in SetKinds -> (LET q == IF Has(v, "c") THEN v.c ELSE SetSeq(v.s) IN [i \in 1..Len(q) |-> TermToks(q[i])])
                         [] v.k \in SeqKinds -> [i \in 1..Len(v.q) |-> TermToks(v.q[i])]
-                        [] v.k \in ImgKinds -> (LET c == InsertAt(v.q, v.i + 1, PH) IN [i \in 1..Len(c) |-> TermToks(c[i])])
+                        [] v.k \in ImgKinds -> (LET c == IF Has(v, "c") THEN v.c ELSE InsertAt(v.q, v.i + 1, PH) IN [i \in 1..Len(c) |-> TermToks(c[i])])
                         [] v.k = "Negation" -> <<TermToks(v.a)>>
                         [] OTHER -> <<TermToks(v.a), TermToks(v.b)>>
          IN T(F.compL, "n") \o T(F.conn[v.k], "n") \o T(F.sep, "t") \o JoinComps(comps) \o T(F.compR, "n")
